@@ -6,7 +6,7 @@ use std::slice;
 use indexmap::IndexMap;
 use serde::{Deserialize, Serialize};
 
-#[derive(Debug, Clone, PartialEq, Eq, Serialize, Deserialize)]
+#[derive(Debug, Clone, PartialEq, Eq, Serialize)]
 #[serde(rename_all = "PascalCase")]
 pub struct Policy {
     pub version: Option<Version>,
@@ -145,6 +145,65 @@ impl<'de> Deserialize<'de> for Principal {
         }
 
         deserializer.deserialize_any(Visitor)
+    }
+}
+
+impl<'de> Deserialize<'de> for Policy {
+    fn deserialize<D>(deserializer: D) -> Result<Self, D::Error>
+    where
+        D: serde::Deserializer<'de>,
+    {
+        #[derive(Deserialize)]
+        #[serde(field_identifier)]
+        enum Field {
+            Version,
+            Id,
+            Statement,
+            #[serde(other)]
+            Other,
+        }
+
+        struct Visitor;
+
+        impl<'de> serde::de::Visitor<'de> for Visitor {
+            type Value = Policy;
+
+            fn expecting(&self, formatter: &mut std::fmt::Formatter) -> std::fmt::Result {
+                formatter.write_str("a policy object")
+            }
+
+            fn visit_map<A>(self, mut map: A) -> Result<Self::Value, A::Error>
+            where
+                A: serde::de::MapAccess<'de>,
+            {
+                let mut version: Option<Option<Version>> = None;
+                let mut id: Option<Option<Id>> = None;
+                let mut statement: Option<OneOrMore<Statement>> = None;
+
+                while let Some(field) = map.next_key()? {
+                    match field {
+                        Field::Version if version.is_some() => return Err(serde::de::Error::duplicate_field("Version")),
+                        Field::Version => version = Some(map.next_value()?),
+                        Field::Id if id.is_some() => return Err(serde::de::Error::duplicate_field("Id")),
+                        Field::Id => id = Some(map.next_value()?),
+                        Field::Statement if statement.is_some() => return Err(serde::de::Error::duplicate_field("Statement")),
+                        Field::Statement => statement = Some(map.next_value()?),
+                        Field::Other => {
+                            map.next_value::<serde::de::IgnoredAny>()?;
+                        }
+                    }
+                }
+
+                Ok(Policy {
+                    version: version.flatten(),
+                    id: id.flatten(),
+                    statement: statement.ok_or_else(|| serde::de::Error::missing_field("Statement"))?,
+                })
+            }
+        }
+
+        // A policy is a JSON object; an array of the three fields is not a policy.
+        deserializer.deserialize_map(Visitor)
     }
 }
 
@@ -596,6 +655,25 @@ mod tests {
 
         for json in rejected {
             assert!(serde_json::from_str::<Statement>(json).is_err(), "{json}");
+        }
+    }
+
+    #[test]
+    fn policy_is_an_object() {
+        let statement = r#"{"Effect":"Allow","Action":"s3:GetObject","Resource":"arn:aws:s3:::b/*"}"#;
+
+        let object = format!(r#"{{"Version":"2012-10-17","Id":null,"Statement":{statement}}}"#);
+        assert!(serde_json::from_str::<Policy>(&object).is_ok());
+
+        let rejected = [
+            format!(r#"["2012-10-17",null,{statement}]"#),
+            format!(r#"{{"Version":"2012-10-17","Version":"2012-10-17","Statement":{statement}}}"#),
+            format!(r#"{{"Statement":{statement},"Statement":{statement}}}"#),
+            r#"{"Version":"2012-10-17"}"#.to_owned(),
+        ];
+
+        for json in rejected {
+            assert!(serde_json::from_str::<Policy>(&json).is_err(), "{json}");
         }
     }
 
